@@ -136,11 +136,22 @@ Call ==
                   [] m \in {"panic", "rterr"} -> "panic"
                   [] OTHER -> "none"
          site == IF sig = "nonfatal" THEN "NF" ELSE m \o "@" \o ToString(Ev.site)
-         o2 == IF sig # "none" /\ Stronger(sig, o.sig)
+         \* (a fatal signal or panic raised from a cleanup function, i.e. while an earlier panic unwinds, supersedes it: Go's panic semantics)
+         o2 == IF sig # "none" /\ (Stronger(sig, o.sig) \/ (sig \in {"fatal", "panic"} /\ o.ended # "running"))
                THEN [o EXCEPT !.sig = sig, !.site = site, !.msg = Ev.msg]
                ELSE IF m = "skip" /\ o.ended # "running" THEN [o EXCEPT !.ended = "skip"]   \* a skip raised from a cleanup
                ELSE o
      IN SetObs(o2)
+  /\ viol' = viol
+  /\ UNCHANGED <<scen, ffBuf, topInv, runlog, prev, runinfo>>
+
+\* T.Repeat found no action that can run (100 actions in a row skipped before drawing anything) and fails the test case itself
+\* (statemachine.go: executeAction panics with stopTest): a fatal signal raised by the library on the property's behalf
+ActionNone ==
+  /\ Is("h.action.none") /\ Adv
+  /\ SetObs(IF Stronger("fatal", cur.obs.sig)
+            THEN [cur.obs EXCEPT !.sig = "fatal", !.site = "no-valid-action", !.msg = "can't find a valid (non-skipped) action"]
+            ELSE cur.obs)
   /\ viol' = viol
   /\ UNCHANGED <<scen, ffBuf, topInv, runlog, prev, runinfo>>
 
@@ -175,7 +186,7 @@ InvEnd ==
 \* events the engine specification does not talk about (custom-function brackets etc.)
 Handled == {"scen.end", "ctx", "scen.begin", "run.begin", "h.failfiles", "h.ff.load", "h.phase", "h.once.begin", "inv.begin", "draw", "call", "inv.end",
             "h.once.end", "h.shrink.begin", "h.accept", "h.shrink.end", "h.docheck.ret", "h.save", "tb.logf", "tb.errorf", "tb.failnow",
-            "run.end", "fs", "recovered", "timing"}
+            "run.end", "fs", "recovered", "timing", "h.action.none"}
 Other ==
   /\ l <= Len(Trace) /\ Trace[l].ev \notin Handled
   /\ Adv /\ EUnch /\ viol' = viol /\ UNCHANGED <<scen, ffBuf, topInv, runlog, prev, runinfo>>
@@ -311,7 +322,7 @@ FS ==
   /\ EUnch /\ viol' = viol \cup V_FS(Ev.files)
   /\ UNCHANGED <<scen, ffBuf, topInv, runlog, prev, runinfo>>
 
-Next == ScenEnd \/ Ctx \/ ScenBegin \/ RunBegin \/ FFList \/ FFLoad \/ Phase \/ OnceBegin \/ InvBegin \/ Draw \/ Call \/ Recovered \/ Timing \/ InvEnd \/ Other
+Next == ScenEnd \/ Ctx \/ ScenBegin \/ RunBegin \/ FFList \/ FFLoad \/ Phase \/ OnceBegin \/ InvBegin \/ Draw \/ Call \/ Recovered \/ ActionNone \/ Timing \/ InvEnd \/ Other
         \/ OnceEnd \/ ShrinkBegin \/ Accept \/ ShrinkEnd \/ DoCheckRet \/ Save \/ TBLog \/ TBErrorf \/ TBFailNow \/ RunEnd \/ FS
 
 Spec == Init /\ [][Next]_vars
